@@ -27,6 +27,7 @@ TRUSTED = [
 ]
 
 _FMT = None
+_SCRATCH = "/tmp"      # per-job directories live under the run's scratch root (removed by ctx.finish)
 
 
 def _init():
@@ -248,7 +249,7 @@ def check_dataset(path, df, spec, o, fm):
 def _job(job):
     from harness import rt
     spec, o = job
-    tmp = tempfile.mkdtemp(prefix="verif-C02w-", dir="/tmp")
+    tmp = tempfile.mkdtemp(prefix="verif-C02w-", dir=_SCRATCH)
     try:
         df = F.build(spec)
         path = os.path.join(tmp, "rt.parquet" if o["file_scheme"] == "simple" else "rt_ds")
@@ -338,6 +339,8 @@ def classify(spec, o, res):
 
 
 def run(ctx):
+    global _SCRATCH
+    _SCRATCH = ctx.scratch
     C.coq_lib()
     ctx.trusted = TRUSTED
     ctx.coq_file(os.path.join(C.COQ, "props", "C02.v"))
